@@ -171,7 +171,11 @@ def literal_templates(ctx, L):
             extra = list(c.args[3:]) + [k.value for k in c.keywords if k.arg == 'fmt']
             for e in extra:
                 n += 1
-                L.check(isinstance(e, ast.Constant) and isinstance(e.value, str), 'C13a.literal-templates', 'add_to_full|%s' % norm_key(g, c), g.site(c),
+                # `'array<{0}, %s>' % m.size`: the one computed part is the array size, which reaches the generator only after
+                # numeric evaluation succeeded (CppFullGenerator.check_nodes refuses nodes of unknown size, C12e), so it holds no braces
+                sized = isinstance(e, ast.BinOp) and isinstance(e.op, ast.Mod) and isinstance(e.left, ast.Constant) and isinstance(e.left.value, str) \
+                    and e.left.value.count('%') == 1 and ws(unparse(e.right)) == '%s.size' % (unparse(c.args[2]) if len(c.args) > 2 else 'm')
+                L.check((isinstance(e, ast.Constant) and isinstance(e.value, str)) or sized, 'C13a.literal-templates', 'add_to_full|%s' % norm_key(g, c), g.site(c),
                         'fmt passed to add_to_full must be a literal template', ws(unparse(e)))
     L.floor('C13a.literal-templates', n, 6)
 
